@@ -212,6 +212,60 @@ fn class_cells_ring(n: u64) -> Vec<u64> {
   v
 }
 
+
+/// The public layout constants of the RING scheme against R3, for one nside.
+pub fn check_layout(n: u32, part: &mut Part) -> Option<Viol> {
+  let nn = n as u64;
+  let case = json!({"kind": "layout", "nside": n});
+  let got = guarded(move || {
+    [
+      ring::n_hash(n),
+      ring::n_isolatitude_rings(n) as u64,
+      ring::first_hash_on_npc_eqr_transition(n),
+      ring::first_hash_in_eqr(n),
+      ring::first_hash_on_eqr_spc_transition(n),
+      ring::first_hash_in_spc(n),
+    ]
+  });
+  let got = match got {
+    Ok(g) => g,
+    Err(m) => return Some(Viol { api: "ring layout constants".into(), kind: "panic-in-domain".into(), case, expected: "6 numbers".into(), actual: m }),
+  };
+  part.validated += 1;
+  part.outcome(hash64(&got));
+  // expected: from the reference ring decomposition (ring j in 1..=4n-1)
+  let total = ring_n_hash(nn);
+  let first_of = |j: u64| -> u64 {
+    // first index r with ring_decode(n, r).0 == j: walk from the closed form and verify with R3
+    let r = if j <= nn { 2 * (j - 1) * j } else if j <= 3 * nn { 2 * nn * (nn + 1) + (j - nn - 1) * 4 * nn } else { total - 2 * (4 * nn - j) * (4 * nn - j + 1) };
+    assert!(ring_decode(nn, r) == (j, 0) && (r == 0 || ring_decode(nn, r - 1).0 == j - 1), "oracle: ring start");
+    r
+  };
+  let exp = [total, 4 * nn - 1, first_of(nn), first_of(nn + 1), first_of(3 * nn), if nn >= 1 && 3 * nn + 1 <= 4 * nn - 1 { first_of(3 * nn + 1) } else { total }];
+  let names = ["n_hash", "n_isolatitude_rings", "first_hash_on_npc_eqr_transition", "first_hash_in_eqr", "first_hash_on_eqr_spc_transition", "first_hash_in_spc"];
+  for k in 0..6 {
+    if got[k] != exp[k] {
+      return Some(Viol { api: format!("ring::{}", names[k]), kind: "wrong-layout-constant".into(), case, expected: format!("{} (first cell of the corresponding isolatitude ring of the reference enumeration)", exp[k]), actual: got[k].to_string() });
+    }
+  }
+  None
+}
+
+/// Key cells of an nside for the nside sweep: starts / ends of the region boundary rings and one
+/// generic cell per region.
+fn sweep_cells(n: u64) -> Vec<u64> {
+  let total = 12 * n * n;
+  let ncap = 2 * n * (n + 1);
+  let mut v: Vec<u64> = vec![0, total - 1, ncap - 1, ncap, total - ncap - 1, total - ncap, 2 * n * (n - 1), total / 2 + n / 3];
+  for f in [0.07, 0.13, 0.29, 0.37, 0.55, 0.63, 0.71, 0.8, 0.87, 0.93] {
+    v.push(((total as f64) * f) as u64);
+  }
+  v.retain(|&h| h < total);
+  v.sort();
+  v.dedup();
+  v
+}
+
 pub fn run(ctx: &Ctx) -> i32 {
   let quick = ctx.quick();
   let listed_kf2 = ctx.findings.listed("C11", KF2);
@@ -227,8 +281,18 @@ pub fn run(ctx: &Ctx) -> i32 {
   enum Job {
     Small(u32),
     Large(u32),
+    Sweep(u32, u32),
   }
   let mut jobs: Vec<Job> = (1..=n_exh).map(Job::Small).collect();
+  // nside sweep: EVERY nside up to the bound (key cells + layout constants), then a stride
+  let n_sweep: u32 = if quick { 40_000 } else { 1 << 20 };
+  {
+    let mut lo = 1u32;
+    while lo <= n_sweep {
+      jobs.push(Job::Sweep(lo, (lo + 499).min(n_sweep)));
+      lo += 500;
+    }
+  }
   for &n in &large {
     if n > n_exh {
       jobs.push(Job::Large(n));
@@ -240,10 +304,29 @@ pub fn run(ctx: &Ctx) -> i32 {
       part.caps.push(format!("wall budget {}s reached in C11 enumeration", ctx.budget_s));
       return part;
     }
+    if let Job::Sweep(lo, hi) = &jobs[j] {
+      for n in *lo..=*hi {
+        part.stratum("nside-sweep", 1, 6);
+        if let Some(v) = check_layout(n, &mut part) {
+          part.viol(v);
+        }
+        for h in sweep_cells(n as u64) {
+          part.stratum("nside-sweep", 1, 8);
+          if let Some(v) = check_cell(n, h, &mut part) {
+            part.viol(v);
+          }
+        }
+      }
+      return part;
+    }
     let (n, cells): (u32, Vec<u64>) = match &jobs[j] {
       Job::Small(n) => (*n, (0..ring_n_hash(*n as u64)).collect()),
       Job::Large(n) => (*n, class_cells_ring(*n as u64)),
+      Job::Sweep(..) => unreachable!(),
     };
+    if let Some(v) = check_layout(n, &mut part) {
+      part.viol(v);
+    }
     let stratum = if matches!(jobs[j], Job::Small(_)) { "small-nside-all-cells" } else { "large-nside-class-cells" };
     // positions: fewer nudges for the bigger exhaustive nsides
     let k_nudge = if n <= 16 || matches!(jobs[j], Job::Large(_)) { 1 } else { 0 };
@@ -321,6 +404,7 @@ pub fn replay(case: &Value, findings: &Findings) -> Option<Viol> {
   let n = case["nside"].as_u64().unwrap() as u32;
   match case["kind"].as_str().unwrap_or("") {
     "cell" => check_cell(n, u64_from_json(&case["hash"]), &mut part),
+    "layout" => check_layout(n, &mut part),
     "pos" => match check_pos(n, f64_from_json(&case["lon"]), f64_from_json(&case["lat"]), findings.listed("C11", KF2), &mut part) {
       V::Bad(v) => Some(v),
       _ => None,
